@@ -47,6 +47,15 @@ def gen(rng, count, tier):
                 if rng.random() < 0.3:
                     j['timeout'] = 5.0          # finishes well within its timeout
             jobs.append(j)
+        if k % 5 == 4:
+            # apply tasks submitted WHILE a lazy map call (ordered or unordered) is in flight on the same pool: they are
+            # plain apply tasks all the same
+            lazy = {'kind': rng.choice(['imap', 'imap', 'imap_unordered']), 'n': rng.choice([6, 10]), 'input': 'list', 'elem': 'scalar',
+                    'params': {'chunk_size': 1}, 'base': 1000,
+                    'apply_inside': {'after': rng.choice([1, 2, 4]), 'jobs': [{'args': [9000 + i]} for i in range(rng.choice([1, 3]))]}}
+            scens.append({'id': f'p{k}', 'pool': {'n_jobs': nj, 'start_method': sm, 'keep_alive': rng.random() < 0.5}, 'calls': [lazy],
+                          'budget': 60, 'behaviour': {}, 'family': 'inside'})
+            continue
         call = {'kind': 'apply_batch', 'jobs': jobs, 'join_first': rng.random() < 0.5, 'dynamic_extras': True, 'get_timeout': 30}
         sc = {'id': f'p{k}', 'pool': pool, 'calls': [call], 'budget': 60, 'behaviour': {'task': beh}}
         scens.append(S.annotate_history(sc))
@@ -56,6 +65,20 @@ def gen(rng, count, tier):
 def oracle(rec):
     sc = rec['scenario']
     out = rec['result']['calls'][0]
+    if sc.get('family') == 'inside':
+        c = sc['calls'][0]
+        if out.get('outcome') != 'ok':
+            return f"lazy call with apply tasks submitted while it is in flight raised {out['exc']['type']}: {out['exc']['args'][:160]}", 1
+        msg = S.check_value(c, out)
+        if msg:
+            return f"lazy call with apply tasks inside: {msg}", 1
+        vals = out.get('apply_inside')
+        if vals is None:
+            return "apply tasks inside the lazy call were never submitted", 1
+        for j, v in zip(c['apply_inside']['jobs'], vals):
+            if v != ['ok', S.ref_call('scalar', j['args'][0])]:
+                return f"apply task {j['args'][0]} submitted while {c['kind']} was in flight: get() gave {str(v)[:200]}", 1
+        return None, len(vals)
     if out.get('outcome') != 'ok':
         return f"apply batch raised {out['exc']['type']}: {out['exc']['args'][:200]}", 0
     shared = sc['pool'].get('shared_objects')
@@ -130,13 +153,17 @@ def run(ctx):
                               replay=dict(kind='scenario', scenario=rec['scenario'], got=rec['status'], stacks=rec['stacks'][-3000:])))
     mix = {}
     for sc in scens:
+        if sc.get('family') == 'inside':
+            mix['inside_lazy_call'] = mix.get('inside_lazy_call', 0) + 1
+            continue
         for j in sc['calls'][0]['jobs']:
             mix[j['expect']] = mix.get(j['expect'], 0) + 1
     cov = dict(evaluations=len(recs), distinct_nontrivial=len({str(r['scenario']['pool']) + str(r['scenario']['calls']) for r in recs if r['status'] == 'done'}),
                rule="batches of 1-12 (40 thorough) apply_async submissions on 1-4 workers mixing success, three exception shapes, "
                     "overruns with a 0.4 s timeout and generous timeouts, results fetched before or after stop_and_join, extras "
                     "prepended; oracle: get() value / exception type per job, exactly one callback or error_callback per job with "
-                    "that value, every job ready after stop_and_join, the batch itself never fails",
+                    "that value, every job ready after stop_and_join, the batch itself never fails; plus apply tasks submitted while an "
+                    "ordered / unordered lazy map call is in flight on the same pool",
                samples=[dict(scenario=recs[0]['scenario'])], jobs_checked=n, outcome_mix=mix, oracle_failures=len(bad), unfinished=len(hangs))
     return dict(proof=proof, violations=out_v, broken_obligation=proof['failed_obligation'], coverage=cov, wall_s=time.time() - t0)
 
